@@ -2,7 +2,12 @@
 """Print the markdown table of independently seeded changes (DESIGN 10.4)."""
 import glob, json, os
 rows = []
-for d in sorted(glob.glob('/verif/seeded/*/')):
+def _key(d):
+    a, b = os.path.basename(d.rstrip('/')).split('-')
+    return (a, int(b))
+
+
+for d in sorted(glob.glob('/verif/seeded/*/'), key=_key):
     m = json.load(open(os.path.join(d, 'meta.json')))
     name = os.path.basename(d.rstrip('/'))
     rows.append('| %s | %s | %s | %s | %s |' % (
